@@ -1937,6 +1937,7 @@ size_t ZSTDv01_decompressDCtx(void* ctx, void* dst, size_t maxDstSize, const voi
         {
         case bt_compressed:
             errorCode = ZSTD_decompressBlock(ctx, op, oend-op, ip, blockSize);
+            if (!ZSTDv01_isError(errorCode) && errorCode > BLOCKSIZE) return ERROR(corruption_detected);   /* ZSTD_decompressBound() counts on it */
             break;
         case bt_raw :
             errorCode = ZSTD_copyUncompressedBlock(op, oend-op, ip, blockSize);
@@ -1981,7 +1982,7 @@ void ZSTDv01_findFrameSizeInfoLegacy(const void *src, size_t srcSize, size_t* cS
 {
     const BYTE* ip = (const BYTE*)src;
     size_t remainingSize = srcSize;
-    size_t nbBlocks = 0;
+    unsigned long long bound = 0;
     U32 magicNumber;
     blockProperties_t blockProperties;
 
@@ -2017,11 +2018,12 @@ void ZSTDv01_findFrameSizeInfoLegacy(const void *src, size_t srcSize, size_t* cS
 
         ip += blockSize;
         remainingSize -= blockSize;
-        nbBlocks++;
+        /* an uncompressed block is copied whatever its size (up to the 19 bits of the size field) */
+        bound += ((blockProperties.blockType == bt_raw) && (blockSize > BLOCKSIZE)) ? blockSize : BLOCKSIZE;
     }
 
     *cSize = ip - (const BYTE*)src;
-    *dBound = nbBlocks * BLOCKSIZE;
+    *dBound = bound;
 }
 
 /*******************************
